@@ -205,6 +205,25 @@ def scan_method(ci, fn, chain, idx, hookname):
     return writes, calls
 
 
+def hook_wrapper_param(m):
+    """`def <m>(self, h, x, y): [docstring] if h: h(self, x, y)` -> 'h' (a helper that only applies its first argument as a hook), else None"""
+    a = m.args
+    if m.decorator_list or a.vararg or a.kwarg or a.kwonlyargs or a.defaults or len(a.args) != 4:
+        return None
+    ps = [x.arg for x in a.args]
+    body = [b for b in m.body if not (isinstance(b, ast.Expr) and isinstance(b.value, ast.Constant))]
+    if len(body) != 1:
+        return None
+    b = body[0]
+    if not (isinstance(b, ast.If) and not b.orelse and isinstance(b.test, ast.Name) and b.test.id == ps[1] and len(b.body) == 1
+            and isinstance(b.body[0], ast.Expr)):
+        return None
+    call = b.body[0].value
+    ok = (isinstance(call, ast.Call) and isinstance(call.func, ast.Name) and call.func.id == ps[1] and not call.keywords
+          and [getattr(x, 'id', None) for x in call.args] == [ps[0], ps[2], ps[3]])
+    return ps[1] if ok else None
+
+
 def reachable(chain, hook_of_run):
     """Methods reachable from run: {(class index, name): (ClassInfo, fn, writes, calls)}"""
     i, fn = lookup(chain, 'run')
@@ -218,7 +237,7 @@ def reachable(chain, hook_of_run):
             continue
         ci = chain[ci_idx]
         f = ci.methods[name]
-        hookname = hook_param(f) if name == 'run' else None
+        hookname = hook_param(f) if name == 'run' else hook_wrapper_param(f)
         writes, calls = scan_method(ci, f, chain, ci_idx, hookname)
         out[(ci_idx, name)] = (ci, f, writes, calls)
         for cname, via_super, node in calls:
@@ -401,7 +420,7 @@ class Sched:
         if isinstance(s, ast.Pass):
             return
         # the hook:  if hook: hook(self, space, function)   /   hook(self, space, function)
-        if hookname is not None and self.is_hook_stmt(s, hookname):
+        if hookname is not None and (self.is_hook_stmt(s, hookname) or self.is_hook_wrapper_call(s, hookname, ci, selfname)):
             if self.where == 'loop' and self.nest == 0:
                 self.phase = 'post'
             return
@@ -494,6 +513,18 @@ class Sched:
                 and len(s.body) == 1 and isinstance(s.body[0], ast.Expr) and is_call(s.body[0].value):
             return True
         return False
+
+    def is_hook_wrapper_call(self, s, hookname, ci, selfname):
+        """`self.<m>(hook, a, b)` where <m>, defined in the class itself, does nothing but apply its first argument as a hook:
+        `def <m>(self, h, x, y): [docstring] if h: h(self, x, y)` -- the hook statement, moved into a helper"""
+        if not (isinstance(s, ast.Expr) and isinstance(s.value, ast.Call)):
+            return False
+        c = s.value
+        if not (isinstance(c.func, ast.Attribute) and isinstance(c.func.value, ast.Name) and c.func.value.id == selfname and not c.keywords
+                and len(c.args) == 3 and all(isinstance(a, ast.Name) for a in c.args) and c.args[0].id == hookname):
+            return False
+        _, m = lookup(self.chain, c.func.attr, 0)          # resolved like any self.<m>() call: most derived class first
+        return m is not None and hook_wrapper_param(m) is not None
 
     def is_main_loop(self, s, env, file):
         it = s.iter
